@@ -349,6 +349,35 @@ def r06_9(run, model):
     run.floor("destructuring-let matrices", n, 2)
 
 
+def r06_10(run, model):
+    run.rule("R06.10", "whether a bare identifier pattern is a constructor or a binding is decided against the constructors of the whole package: "
+                       "lowering only knows the file it lowers (LowerCtx::new(file)), so name resolution's PVar arm must consult the package's "
+                       "constructor index (or lowering must be given the package's constructors)")
+    LOWER = "crates/ast/src/lower.rs"
+    NR = "crates/compiler/src/typer/name_resolution.rs"
+    cc = model.fn("collect_constructor_names", LOWER)
+    per_file = len([p for p in cc.params() if not p["self"]]) == 1 and "cst::File" in (cc.params()[0]["ty"] or "")
+    rp = model.fn("resolve_pat", NR)
+    consults = False
+    n = 0
+    for m in S.find(rp.body, "Match"):
+        for arm in m["arms"]:
+            pt = S.norm_ws(run.facts.text(NR, arm["pat"]["sp"]))
+            if not pt.startswith("ast::Pat::PVar"):
+                continue
+            n += 1
+            g = arm.get("guard")
+            txt = (S.norm_ws(run.facts.text(NR, g["sp"])) if g is not None else "") + S.norm_ws(run.facts.text(NR, arm["body"]["sp"]))
+            if "constructor_index" in txt:
+                consults = True
+    if n == 0:
+        raise AnalysisIncomplete("resolve_pat: no PVar arm")
+    ok = (not per_file) or consults
+    run.ob("R06.10", "bare identifier patterns are classified against the package's constructors", ok, site(NR, rp.node["sp"]),
+           f"lowering collects constructors per file: {per_file}; name resolution's PVar arm consults the constructor index: {consults}",
+           witness="colors.gom: enum Color { Red, Green }; main.gom: match c { Red => 1, Green => 2 } compiles to `ret = 1`: in main.gom `Red` is a variable that matches everything")
+
+
 def run(run, model):
     mir = Mir(run.facts)
     run.try_rule(r06_1, model, mir)
@@ -359,4 +388,5 @@ def run(run, model):
     run.try_rule(r06_7, model)
     run.try_rule(r06_8, model)
     run.try_rule(r06_9, model)
+    run.try_rule(r06_10, model)
     run.assume("tast_builder::build_pat and compile_struct_case read struct-pattern arguments positionally in declaration order (read and confirmed)")
